@@ -244,7 +244,8 @@ def r2(ctx, R):
         # an observer that is already stale may be skipped, nothing else
         for c in [c for c in ast.walk(lp[0]) if isinstance(c, ast.Call) and call_name(c) == "notify"]:
             g = {t for t in q.guards_of(ln, c)}
-            if not g <= {("observer.is_fresh", "T")}:
+            v_ = norm(lp[0].target)
+            if not g <= {("%s.is_fresh" % v_, "T")}:
                 R.bad(ln, c, "propagation to observers is conditional on %s" % sorted(g))
     bn = ctx.func("BaseNamespaceReferrer.notify")
     R.inst("BaseNamespaceReferrer.notify -> on_namespace_change()")
@@ -368,8 +369,9 @@ def r4(ctx, R):
     okr = bool(rms)
     for c in rms:
         g = q.guards_of(rr_, c)
-        if not any(t in ("self.degree(n) == 0", "self.out_degree(n) == 0", "not self.degree(n)", "not self.out_degree(n)")
-                   or (t in ("self.degree(n)", "self.out_degree(n)") and l == "F") for t, l in g):
+        v_ = norm(c.args[0]) if c.args else "?"
+        if not any((l == "T" and t in ("self.degree(%s) == 0" % v_, "self.out_degree(%s) == 0" % v_))
+                   or (t in ("self.degree(%s)" % v_, "self.out_degree(%s)" % v_) and l == "F") for t, l in g):
             okr = False
     if not okr:
         R.bad(rr_, rms[0] if rms else rr_.node, "a reference that still has readers is dropped from the reference graph "
